@@ -12,6 +12,7 @@ import (
 	"sort"
 	"strings"
 	"sync"
+	"sync/atomic"
 	"time"
 
 	mqtt "github.com/at-wat/mqtt-go"
@@ -427,7 +428,16 @@ type rsDialResp struct {
 	ok bool
 }
 
-const rsWait = 10 * time.Second
+// rsWait: how long the driver waits for the client before recording "stuck". Once several scenarios
+// of a run were stuck (the verdict is a violation anyway) the remaining ones wait less.
+var rsStuck int32
+
+func rsWaitDur() time.Duration {
+	if atomic.LoadInt32(&rsStuck) >= 3 {
+		return 1500 * time.Millisecond
+	}
+	return 10 * time.Second
+}
 
 func rsRun(sc *rsScenario) rsObs {
 	var obs rsObs
@@ -499,6 +509,7 @@ func rsRun(sc *rsScenario) rsObs {
 	loopPushed := 0  // tasks the reconnect loop must have pushed by contract (Retry, Resubscribe)
 	started := false // the task goroutine exists (a SetClient happened)
 	initialized := false
+	rsWait := rsWaitDur()
 	hungWait := rsWait
 	if sc.usesSilent() && !sc.Timeout {
 		hungWait = 1500 * time.Millisecond
@@ -672,6 +683,9 @@ phases:
 	cancel()
 	for _, c := range conns {
 		c.Close()
+	}
+	if obs.Stuck != "" {
+		atomic.AddInt32(&rsStuck, 1)
 	}
 	return obs
 }
@@ -1020,6 +1034,17 @@ func rsCorpus() []*rsScenario {
 	out = append(out, &rsScenario{Note: "F4c changed QoS of a repeated filter", Phases: []rsPhase{
 		{Attempts: []rsAttempt{acc(false)}, Ops: []rsOp{rsS(1, rsSub{"b", 0}), rsS(2, rsSub{"a", 0}), rsS(3, rsSub{"a", 1}), rsU(4, "b")}, IdleCut: true},
 		{Attempts: []rsAttempt{acc(false)}}}})
+	// an interrupted re-subscription stays ahead of the pending requests
+	out = append(out, &rsScenario{Note: "interrupted re-subscription keeps its place ahead of pending requests", Phases: []rsPhase{
+		{Attempts: []rsAttempt{acc(false)}, Ops: []rsOp{rsS(1, rsSub{"a", 1}), rsP(2, 1), rsU(3, "a")}, IdleCut: true},
+		{Attempts: []rsAttempt{acc(false)}, IdleCut: true},
+		{Attempts: []rsAttempt{acc(true)}}},
+		Faults: []rsFault{{0, 1, fAckLost}, {1, 0, fAckLost}}})
+	out = append(out, &rsScenario{Note: "interrupted re-subscription (second filter) keeps its place", Always: true, Phases: []rsPhase{
+		{Attempts: []rsAttempt{acc(false)}, Ops: []rsOp{rsS(1, rsSub{"a", 1}), rsP(2, 2), rsU(3, "a"), rsS(4, rsSub{"b", 2})}, IdleCut: true},
+		{Attempts: []rsAttempt{acc(true)}, IdleCut: true},
+		{Attempts: []rsAttempt{acc(true)}}},
+		Faults: []rsFault{{0, 2, fLostAfter}, {1, 1, fWriteFail}}})
 	// F9: retransmission whose acknowledgement is silently dropped (ResponseTimeout configured)
 	out = append(out, &rsScenario{Note: "F9 timeout applies to retransmissions", Timeout: true, Phases: []rsPhase{
 		{Attempts: []rsAttempt{acc(false)}, Ops: []rsOp{rsP(1, 1)}, IdleCut: true},
@@ -1091,6 +1116,9 @@ func rsSuspectTiming(sc *rsScenario, o *rsObs) bool {
 	return n > fired
 }
 
+// rsExtra: additional families (written directly into the cases file) per property.
+var rsExtra = map[string]func(cf *casesFile, m *meta) int{}
+
 type rsFamily struct {
 	name string
 	scs  []*rsScenario
@@ -1153,6 +1181,12 @@ func rsRunProperty(cfg *runCfg, pid string, pred string, fams []rsFamily, rule s
 		cf.result("V_"+fam.name, fmt.Sprintf("failing %s cases_%s", pred, fam.name))
 		cf.result("M_"+fam.name, fmt.Sprintf("failing model_ok cases_%s", fam.name))
 		m.Distribution["family_"+fam.name] = len(cases)
+	}
+	if extra, ok := rsExtra[pid]; ok {
+		n := extra(cf, m)
+		total += n
+		nt += n
+		m.Distribution["family_fine"] = n
 	}
 	for k, v := range dist {
 		m.Distribution[k] = v
